@@ -226,14 +226,25 @@ impl<T: Types> RaftLog<T> {
         let mut last_log_id = None;
 
         for chunk_id in chunk_ids.iter().copied() {
+            Self::ensure_consecutive_chunks(prev_end_offset, chunk_id)?;
+
+            let (chunk, records) = Chunk::open(config.clone(), chunk_id)?;
+
+            // A crash while the newest chunk file was being created leaves it
+            // without a single complete record. It holds nothing: discard it,
+            // the previous chunk (if any) is the last one.
+            if chunk.records_count() == 0
+                && chunk_ids.last() == Some(&chunk_id)
+            {
+                drop(chunk);
+                std::fs::remove_file(config.chunk_path(chunk_id))?;
+                break;
+            }
+
             // Only the last chunk(open chunk) needs to keep all log payload in
             // cache. Therefore, payloads in previous chunks are marked as
             // evictable.
             sm.payload_cache.write().unwrap().set_last_evictable(last_log_id);
-
-            Self::ensure_consecutive_chunks(prev_end_offset, chunk_id)?;
-
-            let (chunk, records) = Chunk::open(config.clone(), chunk_id)?;
 
             for (i, record) in records.into_iter().enumerate() {
                 let start = chunk.global_offsets[i];
